@@ -535,3 +535,26 @@ def r20_7(ctx):
 def r20_8(ctx):
     from .c16 import r16_2
     r16_2(ctx)
+
+
+@rule("R20.9", min_instances=1, desc="a two-sided path constraint whose instance at a node folds to a constant (only horizon quantities inside, fixed horizon) is judged link by link like the phase-2 constraints (R20.6): the placement sites of the sampling methods reach the chain splitter")
+def r20_9(ctx):
+    """D90 (known): `0 <= (ocp.t <= 0.5)` with Ocp(T=1.0): the instance at the final node is `0 <= (1 <= 0.5)`, which CasADi folds to
+    `0 <= 0` = true before OptiWrapper.subject_to sees it; the violated instance is dropped as 'always satisfied' (the free-time
+    twin contains the row and is infeasible at T=1)."""
+    P = ctx.prog
+    splitters = [g for g in P.all_functions(include_nested=False) if g.name == "comparison_links"]
+    if not splitters:
+        raise AnalysisError("comparison_links (the chain splitter) was not found")
+    missing = []
+    n = 0
+    for cname in ("MultipleShooting", "SingleShooting", "DirectCollocation"):
+        f = P.own_method(cname, "add_constraints")
+        seen, _ = P.reachable([f], concrete=cname, max_depth=3, stop=lambda g: g.cls is None and g.module.relpath.endswith("casadi_helpers.py") and g.name != "comparison_links")
+        n += 1
+        if not any(q.split(".")[-1] == "comparison_links" or q.endswith(":comparison_links") for q in seen):
+            missing.append(cname)
+    ctx.check(not missing, "the path-constraint placements of the sampling methods judge a constant two-sided instance link by link",
+              detail="a chained constraint on horizon quantities that is violated at a node of a fixed horizon is folded to 'true' by CasADi and dropped silently",
+              expected="instances that evaluate to a constant are split with comparison_links(original constraint) and every link must hold (else raise)",
+              found="add_constraints of %s hand eval_at_*(stage, c, ..) straight to opti.subject_to" % ", ".join(missing), fi=P.own_method("OptiWrapper", "subject_to"))
